@@ -8,7 +8,7 @@ HEADLINE = ["c07_promises", "c07_promises_nonempty_window", "c07_promises_with_o
 
 def plan(tier, seed, scale):
     return {"n_cases": sizes(tier, scale, 2400, 60000), "variants": 4,
-            "profiles": ["chain", "events", "core", "events_flat", "big", "deep"],
+            "profiles": ["chain", "events", "core", "events_flat", "big", "deep", "wild", "sibling"],
             "remote_cases": int((32 if tier == "quick" else 1600) * scale),
             "dfs_cases": int((96 if tier == "quick" else 1600) * scale), "dfs_cap": 300 if tier == "quick" else 20000,
             "dfs_budget_s": 1.5 if tier == "quick" else 20.0,
